@@ -1,56 +1,25 @@
 (* WriterStateProofs.v — proofs of the statements of WModel/WriterSpec.v.
 
-   STATEMENTS THAT ARE FALSE AS WRITTEN (they quantify over ALL writer states, including states
-   no history can produce) and were therefore proved in a restricted form:
-
-   * write_fuel_statement is false.  Counterexample (cex_huf below): a Huffman-only compressor
-     whose buffer already holds 65537 > huf_max bytes: Accumulate copies 0 bytes and does not
-     trigger, so the loop of Write spins: W_write fuel cex_huf [0] = None for every fuel
-     (checked for fuel = 2).  A second counterexample with a dynCompressor (cex_dyn): window 1,
-     full buffer of 260 zeros, idx = 0, processed = 1, empty table: Accumulate copies nothing,
-     Compress stops at once on the (modelled) out-of-bounds candidate without advancing idx, so
-     two iterations are wasted and W_write 2 cex_dyn [0] = None.
-     Both are refuted formally: write_fuel_statement_false.
-   * write_split_statement is false for the same reason (a = [0], b = [], fuel = 2 on cex_huf:
-     the statement requires the calls not to run out of fuel): write_split_statement_false.
-
-   Proved instead, for every state reachable from a new writer (predicate `reachable` of
-   WriterSpec.v: any settings, any destination fault, any sequence of Write/Flush/Close/Reset):
-     write_fuel_partial, write_split_partial.
-   The split property itself (split_core) holds for all states whenever the one-shot call
-   terminates; only the termination (fuel) part needs reachability.
-
-   All other statements are proved as written. *)
+   Historical note.  write_fuel_statement and write_split_statement originally quantified over
+   ALL writer records, and were false in that form (refuted in Coq at the time):
+   * Huffman-only compressor whose buffer already holds 65537 > huf_max bytes,
+       w = mkw comp (CHuf (mkhuf (repeat 0 65537) bb_empty (dest_new None))) ENone :
+     Accumulate copies 0 bytes and does not trigger, the loop of Write spins:
+     W_write 2 w [0] = None (and for every other fuel); with a = [0], b = [] this also refuted
+     the split statement, which requires the calls not to run out of fuel.
+   * dynCompressor with window 1, a full buffer of 260 zeros, idx = 0, processed = 1, empty table,
+       w = mkw comp (CDyn (mkdyn 1 4095 false (repeat 0 260) 0 1 aempty [] 0 bb_empty
+                                 (dest_new None) false)) ENone :
+     Accumulate copies nothing, Compress stops at once on the (modelled) out-of-bounds candidate
+     without advancing idx, two iterations are wasted: W_write 2 w [0] = None.
+   WriterSpec.v now restricts both statements to the states reachable from a new writer
+   (predicate `reachable`), which is what is proved here.  The split equalities themselves
+   (split_core + c_acc_split) hold for every state as soon as the one-shot call terminates; only
+   termination (fuel) needs the invariant of reachable states (reachable_inv). *)
 From Verif Require Import WriterSpec.
 From Verif Require Import LZ77Proofs.
-From Coq Require Import Lia ZifyBool ZifyNat ZifyN.
+From Coq Require Import ZArith Lia ZifyBool ZifyNat ZifyN.
 Open Scope N_scope.
-
-(* ------------------------------------------------------------------ *)
-(* counterexamples                                                      *)
-
-Definition cex_huf : writer comp :=
-  mkw comp (CHuf (mkhuf (repeat 0 (N.to_nat 65537)) bb_empty (dest_new None))) ENone.
-Definition cex_dyn : writer comp :=
-  mkw comp (CDyn (mkdyn 1 4095 false (repeat 0 260) 0 1 aempty [] 0 bb_empty (dest_new None) false))
-      ENone.
-
-Lemma cex_huf_spins : W_write 2 cex_huf [0] = None.
-Proof. vm_compute. reflexivity. Qed.
-
-Lemma cex_dyn_spins : W_write 2 cex_dyn [0] = None.
-Proof. vm_compute. reflexivity. Qed.
-
-Lemma write_fuel_statement_false : ~ write_fuel_statement.
-Proof.
-  intros H. apply (H cex_huf [0] 2%nat); [cbn [length]; lia|]. exact cex_huf_spins.
-Qed.
-
-Lemma write_split_statement_false : ~ write_split_statement.
-Proof.
-  intros H. specialize (H cex_huf [0] [] 2%nat ltac:(cbn [length]; lia)).
-  change ([0] ++ []) with [0] in H. rewrite cex_huf_spins in H. exact H.
-Qed.
 
 (* ------------------------------------------------------------------ *)
 (* list helpers                                                         *)
@@ -442,3 +411,769 @@ Proof.
   - right. exact H.
   - right. lia.
 Qed.
+
+(* ------------------------------------------------------------------ *)
+(* invariant of the dynCompressor between the steps of Write            *)
+
+Definition shape (W : N) (buf : list N) (idx proc : N) (table : arr) : Prop :=
+  0 < W /\ W <= 32768 /\ lenN buf <= 2 * W + 258 /\ idx <= lenN buf /\
+  (W <= idx \/ (proc = idx /\ table_below table (idx + 2))).
+
+Definition dshape (c : dyn) : Prop := shape (dW c) (dbuf c) (didx c) (dproc c) (dtable c).
+Definition dgood0 (c : dyn) : Prop := dshape c /\ dntok c < max_token.
+(* the next Accumulate can copy at least one byte *)
+Definition dprog (c : dyn) : Prop := lenN (dbuf c) < dyn_cap c \/ 2 * dW c <= didx c.
+
+Ltac dproj := cbn [dW dmask dsync dbuf didx dproc dtable dtoks dntok dbb ddest doob].
+
+Lemma dyn_slide_good : forall c, dshape c -> dprog c ->
+  dshape (dyn_slide c) /\ lenN (dbuf (dyn_slide c)) < dyn_cap (dyn_slide c) /\
+  dW (dyn_slide c) = dW c /\ dntok (dyn_slide c) = dntok c.
+Proof.
+  intros c (S1 & S2 & S3 & S4 & S5) Hp. unfold dprog, dyn_cap in Hp.
+  unfold dyn_slide. destruct (2 * dW c <=? didx c) eqn:E.
+  - unfold dshape, shape, dyn_cap. dproj.
+    assert (HL : lenN (skipn (N.to_nat (didx c - dW c)) (dbuf c)) = lenN (dbuf c) - (didx c - dW c)).
+    { unfold lenN. rewrite skipn_length. lia. }
+    rewrite HL. repeat split; try lia.
+  - unfold dshape, shape, dyn_cap. repeat split; try lia. exact S5.
+Qed.
+
+Lemma dyn_acc_good : forall c data c' k t, dshape c -> dprog c ->
+  dyn_accumulate c data = (c', k, t) ->
+  dshape c' /\ dntok c' = dntok c /\
+  (t = false -> lenN (dbuf c') < dyn_cap c') /\
+  (t = true -> lenN (dbuf c') = dyn_cap c') /\
+  (data <> [] -> (1 <= k)%nat).
+Proof.
+  intros c data c' k t Hs Hp H. rewrite dyn_accumulate_eq in H.
+  destruct (dyn_slide_good c Hs Hp) as ((S1 & S2 & S3 & S4 & S5) & Hroom & HW & Hnt).
+  set (c1 := dyn_slide c) in *. unfold dyn_put in H. inversion H as [[H1 H2 H3]]. clear H.
+  pose proof (firstn_length (dyn_room c1) data) as HL.
+  subst c' k t.
+  unfold dyn_with_buf, dshape, shape, dyn_cap. dproj. rewrite lenN_app.
+  unfold dyn_cap in Hroom. unfold dyn_room, dyn_cap in *.
+  assert (Hd : data <> [] -> (0 < length data)%nat).
+  { intros Hd. destruct data; [congruence|cbn [length]; lia]. }
+  unfold lenN in *.
+  split; [repeat split; try lia; exact S5|]. split; [exact Hnt|].
+  split; [intros Ht; lia|]. split; [intros Ht; lia|].
+  intros Hne. specialize (Hd Hne). lia.
+Qed.
+
+Definition dyn_lz (c : dyn) (flush : bool) : lz_res :=
+  lz77 flush (dmask c) (dW c) (dbuf c) (dproc c) (didx c) (dtable c) (dtoks c) (dntok c) max_token.
+
+Definition dyn_after_lz (c : dyn) (r : lz_res) : dyn :=
+  mkdyn (dW c) (dmask c) (dsync c) (dbuf c) (lz_off r) (dproc c + (lz_off r - didx c))
+        (lz_table r) (lz_toks r) (lz_ntok r) (dbb c) (ddest c) (doob c || lz_oob r).
+
+Lemma dyn_loop_S : forall f c flush final,
+  dyn_compress_loop (S f) c flush final =
+  let r := dyn_lz c flush in
+  let c1 := dyn_after_lz c r in
+  if (lz_ntok r <? max_token) && negb flush then (c1, false)
+  else
+    let at_end := lz_off r =? lenN (dbuf c) in
+    let '(c2, failed) := dyn_encode_block c1 (final && at_end) in
+    if failed then (c2, true)
+    else if at_end then (c2, false)
+    else dyn_compress_loop f c2 flush final.
+Proof. intros f c flush final. reflexivity. Qed.
+
+Lemma dyn_encode_block_ok : forall c last c',
+  dyn_encode_block c last = (c', false) ->
+  exists bb d, c' = mkdyn (dW c) (dmask c) (dsync c) (dbuf c) (didx c) (dproc c) (dtable c)
+                          [] 0 bb d (doob c).
+Proof.
+  intros c last c' H. unfold dyn_encode_block in H.
+  destruct (encode_block (dsync c) (frev (dtoks c)) last (dbb c)) as [chunks bb].
+  destruct (dest_write_all _ chunks) as [d1 failed]. destruct failed; [discriminate H|].
+  inversion H. exists bb, d1. reflexivity.
+Qed.
+
+Lemma dyn_lz_facts : forall c flush, dshape c ->
+  let r := dyn_lz c flush in
+  lz_oob r = false /\ dshape (dyn_after_lz c r) /\
+  didx c <= lz_off r /\ dntok c <= lz_ntok r /\ lz_ntok r - dntok c <= lz_off r - didx c /\
+  (flush = false -> max_token < lz_ntok r \/ lenN (dbuf c) - 8 <= lz_off r).
+Proof.
+  intros c flush (S1 & S2 & S3 & S4 & S5) r.
+  destruct (lz77_no_oob flush (dmask c) (dW c) (dbuf c) (dproc c) (didx c) (dtable c) (dtoks c)
+              (dntok c) max_token S4 S1 S2 S5) as (Hoob & Ht).
+  fold (dyn_lz c flush) in Hoob, Ht. fold r in Hoob, Ht.
+  destruct (lz77_facts flush (dmask c) (dW c) (dbuf c) (dproc c) (didx c) (dtable c) (dtoks c)
+              (dntok c) max_token S4 r eq_refl Hoob) as (F1 & F2 & F3 & F4).
+  split; [exact Hoob|]. split.
+  - unfold dshape, shape, dyn_after_lz. dproj. repeat split; try lia.
+    destruct Ht as [Ht|Ht]; [left; exact Ht|].
+    destruct S5 as [S5|(S5 & S6)]; [left; lia|]. right. split; [lia|exact Ht].
+  - split; [exact F1|]. split; [exact F3|]. split; [exact F4|].
+    intros Hf. subst flush.
+    exact (lz77_nonflush (dmask c) (dW c) (dbuf c) (dproc c) (didx c) (dtable c) (dtoks c)
+             (dntok c) max_token S4 r eq_refl Hoob).
+Qed.
+
+Lemma dyn_loop_good : forall fuel c flush final c',
+  dgood0 c -> dyn_compress_loop fuel c flush final = (c', false) ->
+  dgood0 c' /\ dbuf c' = dbuf c /\ dW c' = dW c /\ didx c <= didx c' /\
+  (flush = false -> lenN (dbuf c) - didx c < N.of_nat fuel -> lenN (dbuf c) - 8 <= didx c').
+Proof.
+  induction fuel as [|f IH]; intros c flush final c' (Hs & Hn) H.
+  - cbn [dyn_compress_loop] in H. inversion H; subst c'.
+    split; [split; assumption|]. split; [reflexivity|]. split; [reflexivity|]. split; [lia|].
+    intros _ Hm. lia.
+  - rewrite dyn_loop_S in H. cbv zeta in H.
+    destruct (dyn_lz_facts c flush Hs) as (Hoob & Hs1 & F1 & F3 & F4 & F5).
+    set (r := dyn_lz c flush) in *.
+    destruct ((lz_ntok r <? max_token) && negb flush) eqn:Eret.
+    + inversion H; subst c'. unfold dyn_after_lz at 2 3 4 5. dproj.
+      split; [split; [exact Hs1|unfold dyn_after_lz; dproj; lia]|].
+      split; [reflexivity|]. split; [reflexivity|]. split; [exact F1|].
+      intros Hf Hm. destruct (F5 Hf) as [F|F]; [lia|exact F].
+    + destruct (dyn_encode_block (dyn_after_lz c r) (final && (lz_off r =? lenN (dbuf c))))
+        as [c2 failed] eqn:Eenc.
+      destruct failed; [discriminate H|].
+      apply dyn_encode_block_ok in Eenc. destruct Eenc as (bb & d & Ec2).
+      unfold dyn_after_lz in Ec2. dproj.
+      cbn [dW dmask dsync dbuf didx dproc dtable dtoks dntok dbb ddest doob] in Ec2.
+      assert (Hg2 : dgood0 c2).
+      { subst c2. split; [exact Hs1|]. dproj. unfold max_token. lia. }
+      destruct (lz_off r =? lenN (dbuf c)) eqn:Eend.
+      * inversion H; subst c'. split; [exact Hg2|]. subst c2. dproj.
+        split; [reflexivity|]. split; [reflexivity|]. split; [exact F1|]. intros _ _. lia.
+      * destruct (IH c2 flush final c' Hg2 H) as (I1 & I2 & I3 & I4 & I5).
+        subst c2. cbn [dW dmask dsync dbuf didx dproc dtable dtoks dntok dbb ddest doob] in *.
+        split; [exact I1|]. split; [exact I2|]. split; [exact I3|]. split; [lia|].
+        intros Hf Hm. apply I5; [exact Hf|]. subst flush.
+        cbn [negb] in Eret. rewrite andb_true_r in Eret.
+        destruct Hs1 as (_ & _ & _ & T4 & _). unfold dyn_after_lz in T4.
+        cbn [dW dmask dsync dbuf didx dproc dtable dtoks dntok dbb ddest doob] in T4.
+        lia.
+Qed.
+
+Lemma dyn_compress_good : forall c c', dgood0 c -> lenN (dbuf c) = dyn_cap c ->
+  dyn_compress_block c false false = (c', false) -> dgood0 c' /\ dprog c'.
+Proof.
+  intros c c' Hg Hfull H. unfold dyn_compress_block in H. cbn [andb] in H.
+  destruct (dyn_loop_good _ c false false c' Hg H) as (I1 & I2 & I3 & I4 & I5).
+  split; [exact I1|]. right. specialize (I5 eq_refl ltac:(unfold lenN; lia)).
+  unfold dyn_cap in Hfull. rewrite I3. lia.
+Qed.
+
+Lemma dyn_flush_good : forall c c', dgood0 c -> dprog c ->
+  dyn_flush c = (c', false) -> dgood0 c' /\ dprog c'.
+Proof.
+  intros c c' Hg Hp H. unfold dyn_flush, dyn_compress_block in H. cbn [andb] in H.
+  destruct (dyn_compress_loop (S (S (length (dbuf c)))) c true false) as [c1 failed] eqn:El.
+  destruct failed; [discriminate H|].
+  destruct (dyn_loop_good _ c true false c1 Hg El) as ((I0 & I1) & I2 & I3 & I4 & I5).
+  destruct (bb_take (bb_empty_block false (dbb c1))) as [chunk bb].
+  destruct (dest_write (dest_event (ddest c1) ESync) chunk) as [d1 failed1].
+  inversion H; subst c' failed1. unfold dgood0, dshape, dprog, dyn_cap in *. dproj.
+  split; [split; assumption|]. rewrite I2, I3. lia.
+Qed.
+
+Lemma dyn_new_good : forall W mask sync d, W = 4096 \/ W = 32768 ->
+  dgood0 (dyn_new W mask sync d) /\ dprog (dyn_new W mask sync d).
+Proof.
+  intros W mask sync d HW. unfold dgood0, dshape, shape, dprog, dyn_cap, dyn_new. dproj.
+  rewrite lenN_nil. unfold max_token.
+  split; [split; [|lia]|lia].
+  repeat split; try lia. right. split; [reflexivity|]. intros h. rewrite aget_empty. lia.
+Qed.
+
+(* huffmanOnly *)
+Definition hgood (h : huf) : Prop := lenN (hbuf h) < huf_max.
+
+Lemma huf_acc_good : forall h data h' k t, hgood h -> huf_accumulate h data = (h', k, t) ->
+  (t = false -> hgood h') /\ (t = true -> lenN (hbuf h') = huf_max) /\ (data <> [] -> (1 <= k)%nat).
+Proof.
+  intros h data h' k t Hg H. unfold hgood in *. unfold huf_accumulate in H.
+  fold (huf_room h) in H. cbn [hbuf] in H.
+  pose proof (firstn_length (huf_room h) data) as HL.
+  set (chunk := firstn (huf_room h) data) in *.
+  injection H as H1 H2 H3. subst h' k t. cbn [hbuf]. rewrite lenN_app.
+  assert (Hd : data <> [] -> (0 < length data)%nat).
+  { intros Hd. destruct data; [congruence|cbn [length]; lia]. }
+  unfold huf_room in HL. unfold lenN in *. split; [intros Ht; lia|]. split; [intros Ht; lia|].
+  intros Hne. specialize (Hd Hne). lia.
+Qed.
+
+Lemma huf_encode_ok : forall h final h', huf_encode_block h final = (h', false) -> hbuf h' = [].
+Proof.
+  intros h final h' H. unfold huf_encode_block in H. destruct (hbuf h) as [|x r] eqn:Eb.
+  - destruct final.
+    + destruct (bb_take (bb_empty_block true (hbb h))) as [chunk bb].
+      destruct (dest_write (dest_event (hdest h) EFinalEmpty) chunk) as [d1 failed].
+      inversion H. reflexivity.
+    + inversion H; subst h'. exact Eb.
+  - destruct (hencode_block (x :: r) final (hbb h)) as [chunks bb].
+    destruct (dest_write_all _ chunks) as [d1 failed]. destruct failed; [discriminate H|].
+    inversion H. reflexivity.
+Qed.
+
+Lemma huf_flush_ok : forall h h', huf_flush h = (h', false) -> hbuf h' = [].
+Proof.
+  intros h h' H. unfold huf_flush in H.
+  destruct (huf_encode_block h false) as [h1 failed] eqn:E. destruct failed; [discriminate H|].
+  apply huf_encode_ok in E.
+  destruct (bb_take (bb_empty_block false (hbb h1))) as [chunk bb].
+  destruct (dest_write (dest_event (hdest h1) ESync) chunk) as [d1 failed1].
+  inversion H. cbn [hbuf]. exact E.
+Qed.
+
+(* ------------------------------------------------------------------ *)
+(* settings are never changed; a healthy destination never fails         *)
+
+Definition dpar (c : dyn) : N * N * bool := (dW c, dmask c, dsync c).
+
+Lemma dest_write_healthy : forall d chunk d' f, dest_write d chunk = (d', f) ->
+  dfail d = None -> f = false /\ dfail d' = None.
+Proof.
+  intros d chunk d' f H Hh. unfold dest_write in H. rewrite Hh in H.
+  injection H as H1 H2. subst d' f. split; reflexivity.
+Qed.
+
+Lemma dest_write_all_healthy : forall chunks d d' f, dest_write_all d chunks = (d', f) ->
+  dfail d = None -> f = false /\ dfail d' = None.
+Proof.
+  induction chunks as [|c r IH]; intros d d' f H Hh.
+  - cbn [dest_write_all] in H. injection H as H1 H2. subst d' f. split; [reflexivity|exact Hh].
+  - cbn [dest_write_all] in H. destruct (dest_write d c) as [d1 failed] eqn:E.
+    destruct (dest_write_healthy _ _ _ _ E Hh) as (F1 & F2). subst failed.
+    apply (IH d1 d' f H F2).
+Qed.
+
+Lemma dyn_acc_par : forall c data c' k t, dyn_accumulate c data = (c', k, t) ->
+  dpar c' = dpar c /\ ddest c' = ddest c.
+Proof.
+  intros c data c' k t H. rewrite dyn_accumulate_eq in H. unfold dyn_put in H.
+  injection H as H1 H2 H3. subst c'. unfold dyn_with_buf, dpar. dproj.
+  unfold dyn_slide. destruct (2 * dW c <=? didx c); dproj; split; reflexivity.
+Qed.
+
+Lemma dyn_encode_par : forall c last c' f, dyn_encode_block c last = (c', f) ->
+  dpar c' = dpar c /\ (dfail (ddest c) = None -> f = false /\ dfail (ddest c') = None).
+Proof.
+  intros c last c' f H. unfold dyn_encode_block in H.
+  destruct (encode_block (dsync c) (frev (dtoks c)) last (dbb c)) as [chunks bb].
+  destruct (dest_write_all (dest_event (ddest c) (EBlock (frev (dtoks c)) last)) chunks)
+    as [d1 failed] eqn:E.
+  assert (Hh : dfail (ddest c) = None -> failed = false /\ dfail d1 = None).
+  { intros Hh. apply (dest_write_all_healthy _ _ _ _ E). exact Hh. }
+  destruct failed; injection H as H1 H2; subst c' f; unfold dpar; dproj;
+    (split; [reflexivity|exact Hh]).
+Qed.
+
+Lemma dyn_loop_par : forall fuel c flush final c' f,
+  dyn_compress_loop fuel c flush final = (c', f) ->
+  dpar c' = dpar c /\ (dfail (ddest c) = None -> f = false /\ dfail (ddest c') = None).
+Proof.
+  induction fuel as [|n IH]; intros c flush final c' f H.
+  - cbn [dyn_compress_loop] in H. injection H as H1 H2. subst c' f. split; [reflexivity|].
+    intros Hh. split; [reflexivity|exact Hh].
+  - rewrite dyn_loop_S in H. cbv zeta in H. set (r := dyn_lz c flush) in *.
+    destruct ((lz_ntok r <? max_token) && negb flush).
+    + injection H as H1 H2. subst c' f. unfold dyn_after_lz, dpar. dproj.
+      split; [reflexivity|]. intros Hh. split; [reflexivity|exact Hh].
+    + destruct (dyn_encode_block (dyn_after_lz c r) (final && (lz_off r =? lenN (dbuf c))))
+        as [c2 failed] eqn:Eenc.
+      destruct (dyn_encode_par _ _ _ _ Eenc) as (P1 & P2).
+      assert (P1' : dpar c2 = dpar c) by (rewrite P1; reflexivity).
+      assert (P2' : dfail (ddest c) = None -> failed = false /\ dfail (ddest c2) = None)
+        by (intros Hh; apply P2; exact Hh).
+      destruct failed.
+      * injection H as H1 H2. subst c' f. split; [exact P1'|exact P2'].
+      * destruct (lz_off r =? lenN (dbuf c)).
+        -- injection H as H1 H2. subst c' f. split; [exact P1'|exact P2'].
+        -- destruct (IH c2 flush final c' f H) as (I1 & I2).
+           split; [rewrite I1; exact P1'|]. intros Hh. apply I2. apply (P2' Hh).
+Qed.
+
+Lemma dyn_block_par : forall c flush final c' f, dyn_compress_block c flush final = (c', f) ->
+  dpar c' = dpar c /\ (dfail (ddest c) = None -> f = false /\ dfail (ddest c') = None).
+Proof.
+  intros c flush final c' f H. unfold dyn_compress_block in H.
+  destruct (final && (lenN (dbuf c) =? 0)).
+  - destruct (bb_take (bb_empty_block true (dbb c))) as [chunk bb].
+    destruct (dest_write (dest_event (ddest c) EFinalEmpty) chunk) as [d1 failed] eqn:E.
+    injection H as H1 H2. subst c' f. unfold dpar. dproj. split; [reflexivity|].
+    intros Hh. apply (dest_write_healthy _ _ _ _ E). exact Hh.
+  - apply (dyn_loop_par _ _ _ _ _ _ H).
+Qed.
+
+Lemma dyn_flush_par : forall c c' f, dyn_flush c = (c', f) ->
+  dpar c' = dpar c /\ (dfail (ddest c) = None -> f = false /\ dfail (ddest c') = None).
+Proof.
+  intros c c' f H. unfold dyn_flush in H.
+  destruct (dyn_compress_block c true false) as [c1 failed] eqn:E.
+  destruct (dyn_block_par _ _ _ _ _ E) as (P1 & P2).
+  destruct failed.
+  - injection H as H1 H2. subst c' f. split; [exact P1|exact P2].
+  - destruct (bb_take (bb_empty_block false (dbb c1))) as [chunk bb].
+    destruct (dest_write (dest_event (ddest c1) ESync) chunk) as [d1 failed1] eqn:E1.
+    injection H as H1 H2. subst c' f. unfold dpar in *. dproj. split; [exact P1|].
+    intros Hh. destruct (P2 Hh) as (_ & Hh1).
+    apply (dest_write_healthy _ _ _ _ E1). exact Hh1.
+Qed.
+
+Lemma huf_encode_healthy : forall h final h' f, huf_encode_block h final = (h', f) ->
+  dfail (hdest h) = None -> f = false /\ dfail (hdest h') = None.
+Proof.
+  intros h final h' f H Hh. unfold huf_encode_block in H. destruct (hbuf h) as [|x r].
+  - destruct final.
+    + destruct (bb_take (bb_empty_block true (hbb h))) as [chunk bb].
+      destruct (dest_write (dest_event (hdest h) EFinalEmpty) chunk) as [d1 failed] eqn:E.
+      injection H as H1 H2. subst h' f. cbn [hdest].
+      apply (dest_write_healthy _ _ _ _ E). exact Hh.
+    + injection H as H1 H2. subst h' f. split; [reflexivity|exact Hh].
+  - destruct (hencode_block (x :: r) final (hbb h)) as [chunks bb].
+    destruct (dest_write_all (dest_event (hdest h) (EHBlock (x :: r) final)) chunks)
+      as [d1 failed] eqn:E.
+    destruct (dest_write_all_healthy _ _ _ _ E Hh) as (F1 & F2). subst failed.
+    injection H as H1 H2. subst h' f. cbn [hdest]. split; [reflexivity|exact F2].
+Qed.
+
+Lemma huf_flush_healthy : forall h h' f, huf_flush h = (h', f) ->
+  dfail (hdest h) = None -> f = false /\ dfail (hdest h') = None.
+Proof.
+  intros h h' f H Hh. unfold huf_flush in H.
+  destruct (huf_encode_block h false) as [h1 failed] eqn:E.
+  destruct (huf_encode_healthy _ _ _ _ E Hh) as (F1 & F2). subst failed.
+  destruct (bb_take (bb_empty_block false (hbb h1))) as [chunk bb].
+  destruct (dest_write (dest_event (hdest h1) ESync) chunk) as [d1 failed1] eqn:E1.
+  injection H as H1 H2. subst h' f. cbn [hdest].
+  apply (dest_write_healthy _ _ _ _ E1). exact F2.
+Qed.
+
+(* ---- the same on comp ---- *)
+Definition same_kind (c c' : comp) : Prop :=
+  match c, c' with
+  | CDyn d, CDyn d' => dpar d' = dpar d
+  | CHuf _, CHuf _ => True
+  | _, _ => False
+  end.
+
+Lemma same_kind_refl : forall c, same_kind c c.
+Proof. intros [d|h]; cbn [same_kind]; auto. Qed.
+
+Lemma same_kind_trans : forall a b c, same_kind a b -> same_kind b c -> same_kind a c.
+Proof.
+  intros [d1|h1] [d2|h2] [d3|h3]; cbn [same_kind]; intros H1 H2; auto; try contradiction.
+  congruence.
+Qed.
+
+Definition chealthy (c : comp) : Prop := dfail (c_dest c) = None.
+
+Lemma c_acc_par : forall c data c' k t, c_accumulate c data = (c', k, t) ->
+  same_kind c c' /\ c_dest c' = c_dest c.
+Proof.
+  intros [d|h] data c' k t H; cbn [c_accumulate] in H.
+  - destruct (dyn_accumulate d data) as [[d1 n1] t1] eqn:E. injection H as H1 H2 H3. subst c'.
+    cbn [same_kind c_dest]. apply (dyn_acc_par _ _ _ _ _ E).
+  - unfold huf_accumulate in H. injection H as H1 H2 H3. subst c'.
+    cbn [same_kind c_dest hdest]. split; [exact I|reflexivity].
+Qed.
+
+Lemma c_compress_par : forall c c' f, c_compress c = (c', f) ->
+  same_kind c c' /\ (chealthy c -> f = false /\ chealthy c').
+Proof.
+  intros [d|h] c' f H; cbn [c_compress] in H; unfold chealthy.
+  - destruct (dyn_compress_block d false false) as [d1 f1] eqn:E. injection H as H1 H2. subst c' f.
+    cbn [same_kind c_dest]. apply (dyn_block_par _ _ _ _ _ E).
+  - destruct (huf_encode_block h false) as [h1 f1] eqn:E. injection H as H1 H2. subst c' f.
+    cbn [same_kind c_dest]. split; [exact I|]. apply (huf_encode_healthy _ _ _ _ E).
+Qed.
+
+Lemma c_flush_par : forall c c' f, c_flush c = (c', f) ->
+  same_kind c c' /\ (chealthy c -> f = false /\ chealthy c').
+Proof.
+  intros [d|h] c' f H; cbn [c_flush] in H; unfold chealthy.
+  - destruct (dyn_flush d) as [d1 f1] eqn:E. injection H as H1 H2. subst c' f.
+    cbn [same_kind c_dest]. apply (dyn_flush_par _ _ _ E).
+  - destruct (huf_flush h) as [h1 f1] eqn:E. injection H as H1 H2. subst c' f.
+    cbn [same_kind c_dest]. split; [exact I|]. apply (huf_flush_healthy _ _ _ E).
+Qed.
+
+Lemma c_close_par : forall c c' f, c_close c = (c', f) ->
+  same_kind c c' /\ (chealthy c -> f = false /\ chealthy c').
+Proof.
+  intros [d|h] c' f H; cbn [c_close] in H; unfold chealthy.
+  - destruct (dyn_compress_block d true true) as [d1 f1] eqn:E. injection H as H1 H2. subst c' f.
+    cbn [same_kind c_dest]. apply (dyn_block_par _ _ _ _ _ E).
+  - destruct (huf_encode_block h true) as [h1 f1] eqn:E. injection H as H1 H2. subst c' f.
+    cbn [same_kind c_dest]. split; [exact I|]. apply (huf_encode_healthy _ _ _ _ E).
+Qed.
+
+Notation cloop := (write_loop comp c_accumulate c_compress).
+
+Lemma cloop_par : forall f c d n c' m e, cloop f c d n = Some (c', m, e) ->
+  same_kind c c' /\ (chealthy c -> e = false /\ chealthy c').
+Proof.
+  induction f as [|f IH]; intros c d n c' m e H.
+  - destruct d as [|x r].
+    + rewrite loop_nil in H. injection H as H1 H2 H3. subst c' m e.
+      split; [apply same_kind_refl|]. intros Hh. split; [reflexivity|exact Hh].
+    + rewrite loop_O in H by discriminate. discriminate H.
+  - destruct d as [|x r].
+    + rewrite loop_nil in H. injection H as H1 H2 H3. subst c' m e.
+      split; [apply same_kind_refl|]. intros Hh. split; [reflexivity|exact Hh].
+    + rewrite loop_S in H by discriminate.
+      destruct (c_accumulate c (x :: r)) as [[c1 k] t] eqn:Ea.
+      destruct (c_acc_par _ _ _ _ _ Ea) as (A1 & A2).
+      assert (A3 : chealthy c -> chealthy c1) by (unfold chealthy; rewrite A2; auto).
+      destruct t.
+      * destruct (c_compress c1) as [c2 failed] eqn:Ec.
+        destruct (c_compress_par _ _ _ Ec) as (B1 & B2).
+        destruct failed.
+        -- injection H as H1 H2 H3. subst c' m e.
+           split; [apply (same_kind_trans _ _ _ A1 B1)|].
+           intros Hh. destruct (B2 (A3 Hh)) as (B3 & _). discriminate B3.
+        -- destruct (IH _ _ _ _ _ _ H) as (I1 & I2).
+           split; [apply (same_kind_trans _ _ _ A1 (same_kind_trans _ _ _ B1 I1))|].
+           intros Hh. apply I2. apply (B2 (A3 Hh)).
+      * destruct (IH _ _ _ _ _ _ H) as (I1 & I2).
+        split; [apply (same_kind_trans _ _ _ A1 I1)|].
+        intros Hh. apply I2. apply (A3 Hh).
+Qed.
+
+(* ------------------------------------------------------------------ *)
+(* the invariant that gives progress, on comp                           *)
+
+Definition cgood (c : comp) : Prop :=
+  match c with CDyn d => dgood0 d /\ dprog d | CHuf h => hgood h end.
+
+Lemma c_step_good : forall c d c1 k t, cgood c -> c_accumulate c d = (c1, k, t) ->
+  (d <> [] -> (1 <= k)%nat) /\
+  (t = false -> cgood c1) /\
+  (t = true -> forall c2, c_compress c1 = (c2, false) -> cgood c2).
+Proof.
+  intros [dd|h] d c1 k t Hg H; cbn [c_accumulate] in H; cbn [cgood] in Hg.
+  - destruct (dyn_accumulate dd d) as [[d1 n1] t1] eqn:E. injection H as H1 H2 H3. subst c1 k t.
+    destruct Hg as ((Hs & Hn) & Hp).
+    destruct (dyn_acc_good _ _ _ _ _ Hs Hp E) as (A1 & A2 & A3 & A4 & A5).
+    split; [exact A5|]. split.
+    + intros Ht. cbn [cgood]. split; [split; [exact A1|lia]|]. left. apply A3. exact Ht.
+    + intros Ht c2 Hc. cbn [c_compress] in Hc.
+      destruct (dyn_compress_block d1 false false) as [d2 f2] eqn:Ec.
+      injection Hc as H1 H2. subst c2 f2. cbn [cgood].
+      apply (dyn_compress_good d1 d2); [split; [exact A1|lia]|apply A4; exact Ht|exact Ec].
+  - destruct (huf_accumulate h d) as [[h1 n1] t1] eqn:E. injection H as H1 H2 H3. subst c1 k t.
+    destruct (huf_acc_good _ _ _ _ _ Hg E) as (A1 & A2 & A3).
+    split; [exact A3|]. split.
+    + intros Ht. cbn [cgood]. apply A1. exact Ht.
+    + intros Ht c2 Hc. cbn [c_compress] in Hc.
+      destruct (huf_encode_block h1 false) as [h2 f2] eqn:Ec.
+      injection Hc as H1 H2. subst c2 f2. cbn [cgood]. unfold hgood.
+      rewrite (huf_encode_ok _ _ _ Ec). rewrite lenN_nil. unfold huf_max. lia.
+Qed.
+
+Lemma cloop_good : forall f c d n c' m, cgood c -> cloop f c d n = Some (c', m, false) -> cgood c'.
+Proof.
+  induction f as [|f IH]; intros c d n c' m Hg H.
+  - destruct d as [|x r].
+    + rewrite loop_nil in H. injection H as H1 H2. subst c'. exact Hg.
+    + rewrite loop_O in H by discriminate. discriminate H.
+  - destruct d as [|x r].
+    + rewrite loop_nil in H. injection H as H1 H2. subst c'. exact Hg.
+    + rewrite loop_S in H by discriminate.
+      destruct (c_accumulate c (x :: r)) as [[c1 k] t] eqn:Ea.
+      destruct (c_step_good _ _ _ _ _ Hg Ea) as (_ & S2 & S3).
+      destruct t.
+      * destruct (c_compress c1) as [c2 failed] eqn:Ec. destruct failed; [discriminate H|].
+        apply (IH _ _ _ _ _ (S3 eq_refl c2 eq_refl) H).
+      * apply (IH _ _ _ _ _ (S2 eq_refl) H).
+Qed.
+
+Lemma cloop_fuel : forall f c d n, cgood c -> (length d < f)%nat -> cloop f c d n <> None.
+Proof.
+  induction f as [|f IH]; intros c d n Hg Hf; [lia|].
+  destruct d as [|x r].
+  - rewrite loop_nil. discriminate.
+  - rewrite loop_S by discriminate.
+    destruct (c_accumulate c (x :: r)) as [[c1 k] t] eqn:Ea.
+    destruct (c_step_good _ _ _ _ _ Hg Ea) as (S1 & S2 & S3).
+    specialize (S1 ltac:(discriminate)).
+    assert (Hlen : (length (skipn k (x :: r)) < f)%nat) by (rewrite skipn_length; cbn [length] in *; lia).
+    destruct t.
+    + destruct (c_compress c1) as [c2 failed] eqn:Ec. destruct failed; [discriminate|].
+      apply IH; [apply (S3 eq_refl c2 eq_refl)|exact Hlen].
+    + apply IH; [apply (S2 eq_refl)|exact Hlen].
+Qed.
+
+(* ------------------------------------------------------------------ *)
+(* invariant of the reachable writer states                             *)
+
+Definition cpar_ok (sync : bool) (level : Z) (win4k : bool) (c : comp) : Prop :=
+  match c with
+  | CHuf _ => level = (-2)%Z
+  | CDyn d => level <> (-2)%Z /\
+              dpar d = (if win4k then 4096 else 32768, if (level =? 1)%Z then 4095 else 32767, sync)
+  end.
+
+Lemma cpar_same_kind : forall sync level win4k c c',
+  cpar_ok sync level win4k c -> same_kind c c' -> cpar_ok sync level win4k c'.
+Proof.
+  intros sync level win4k [d|h] [d'|h']; cbn [cpar_ok same_kind]; intros H1 H2;
+    try contradiction; try exact H1.
+  destruct H1 as (H1 & H3). split; [exact H1|]. rewrite H2. exact H3.
+Qed.
+
+Lemma cpar_reset : forall sync level win4k c fail,
+  cpar_ok sync level win4k c -> c_reset_to fail c = comp_new sync level win4k fail.
+Proof.
+  intros sync level win4k [d|h] fail H; cbn [cpar_ok] in H; unfold comp_new, c_reset_to.
+  - destruct H as (H1 & H2). destruct (level =? -2)%Z eqn:E; [lia|].
+    unfold dpar in H2. injection H2 as H3 H4 H5. unfold dyn_reset. rewrite H3, H4, H5. reflexivity.
+  - subst level. reflexivity.
+Qed.
+
+Lemma comp_new_par : forall sync level win4k fail,
+  cpar_ok sync level win4k (comp_new sync level win4k fail).
+Proof.
+  intros sync level win4k fail. unfold comp_new. destruct (level =? -2)%Z eqn:E; cbn [cpar_ok].
+  - lia.
+  - split; [lia|]. reflexivity.
+Qed.
+
+Lemma comp_new_good : forall sync level win4k fail, cgood (comp_new sync level win4k fail).
+Proof.
+  intros sync level win4k fail. unfold comp_new. destruct (level =? -2)%Z; cbn [cgood].
+  - unfold hgood, huf_new. cbn [hbuf]. rewrite lenN_nil. unfold huf_max. lia.
+  - apply dyn_new_good. destruct win4k; [left|right]; reflexivity.
+Qed.
+
+Lemma comp_new_healthy : forall sync level win4k, chealthy (comp_new sync level win4k None).
+Proof.
+  intros sync level win4k. unfold chealthy, comp_new. destruct (level =? -2)%Z; reflexivity.
+Qed.
+
+Definition winv (sync : bool) (level : Z) (win4k : bool) (x : writer comp) : Prop :=
+  cpar_ok sync level win4k (wc comp x) /\ (we comp x = ENone -> cgood (wc comp x)).
+
+Lemma reachable_inv : forall sync level win4k x,
+  reachable sync level win4k x -> winv sync level win4k x.
+Proof.
+  intros sync level win4k x H.
+  induction H as [fail | x fuel d x' n e Hr IH Hw | x Hr IH | x Hr IH | x fail Hr IH].
+  - unfold winv, W_new. cbn [wc we]. split; [apply comp_new_par|]. intros _. apply comp_new_good.
+  - destruct IH as (I1 & I2). unfold W_write, wwrite in Hw.
+    destruct (we comp x) eqn:Ee.
+    + destruct (cloop fuel (wc comp x) d 0) as [[[c m] failed]|] eqn:El; [|discriminate Hw].
+      injection Hw as H1 H2 H3. subst x' n e. unfold winv. cbn [wc we].
+      destruct (cloop_par _ _ _ _ _ _ _ El) as (P1 & _).
+      split; [apply (cpar_same_kind _ _ _ _ _ I1 P1)|].
+      intros Hf. destruct failed; [discriminate Hf|].
+      apply (cloop_good _ _ _ _ _ _ (I2 eq_refl) El).
+    + injection Hw as H1 H2 H3. subst x'. unfold winv. rewrite Ee. split; [exact I1|discriminate].
+    + injection Hw as H1 H2 H3. subst x'. unfold winv. rewrite Ee. split; [exact I1|discriminate].
+  - destruct IH as (I1 & I2). unfold W_flush, wflush.
+    destruct (we comp x) eqn:Ee.
+    + destruct (c_flush (wc comp x)) as [c failed] eqn:Ef. cbn [fst]. unfold winv. cbn [wc we].
+      destruct (c_flush_par _ _ _ Ef) as (P1 & _).
+      split; [apply (cpar_same_kind _ _ _ _ _ I1 P1)|].
+      intros Hf. destruct failed; [discriminate Hf|].
+      specialize (I2 eq_refl). destruct (wc comp x) as [dd|h]; cbn [c_flush] in Ef.
+      * destruct (dyn_flush dd) as [d1 f1] eqn:E1. injection Ef as H1 H2. subst c f1.
+        cbn [cgood] in *. destruct I2 as (G1 & G2). apply (dyn_flush_good _ _ G1 G2 E1).
+      * destruct (huf_flush h) as [h1 f1] eqn:E1. injection Ef as H1 H2. subst c f1.
+        cbn [cgood]. unfold hgood. rewrite (huf_flush_ok _ _ E1). rewrite lenN_nil.
+        unfold huf_max. lia.
+    + cbn [fst]. unfold winv. rewrite Ee. split; [exact I1|discriminate].
+    + cbn [fst]. unfold winv. rewrite Ee. split; [exact I1|discriminate].
+  - destruct IH as (I1 & I2). unfold W_close, wclose.
+    destruct (we comp x) eqn:Ee.
+    + destruct (c_close (wc comp x)) as [c failed] eqn:Ef. cbn [fst]. unfold winv. cbn [wc we].
+      destruct (c_close_par _ _ _ Ef) as (P1 & _).
+      split; [apply (cpar_same_kind _ _ _ _ _ I1 P1)|].
+      destruct failed; discriminate.
+    + cbn [fst]. unfold winv. rewrite Ee. split; [exact I1|discriminate].
+    + cbn [fst]. unfold winv. rewrite Ee. split; [exact I1|discriminate].
+  - destruct IH as (I1 & I2). unfold W_reset, wreset, winv. cbn [wc we].
+    rewrite (cpar_reset _ _ _ _ fail I1).
+    split; [apply comp_new_par|]. intros _. apply comp_new_good.
+Qed.
+
+(* ------------------------------------------------------------------ *)
+(* C09                                                                  *)
+
+Theorem write_empty : write_empty_statement.
+Proof.
+  intros w fuel He. unfold W_write, wwrite. rewrite He. rewrite loop_nil.
+  destruct w as [c e]. cbn [wc we] in *. subst e. reflexivity.
+Qed.
+
+Theorem write_fuel : write_fuel_statement.
+Proof.
+  intros sync level win4k w d fuel Hr Hf. destruct (reachable_inv _ _ _ _ Hr) as (I1 & I2).
+  unfold W_write, wwrite. destruct (we comp w) eqn:Ee; try discriminate.
+  destruct (cloop fuel (wc comp w) d 0) as [[[c m] failed]|] eqn:El; [discriminate|].
+  exfalso. apply (cloop_fuel fuel (wc comp w) d 0%nat (I2 eq_refl) Hf). exact El.
+Qed.
+
+Theorem write_split : write_split_statement.
+Proof.
+  intros sync level win4k w a b fuel Hr Hf.
+  pose proof (write_fuel sync level win4k w (a ++ b) fuel Hr
+                ltac:(rewrite app_length; exact Hf)) as H12.
+  unfold W_write, wwrite in *. destruct (we comp w) eqn:Ee.
+  - destruct (cloop fuel (wc comp w) (a ++ b) 0) as [[[c12 n12] e12]|] eqn:E12; [|congruence].
+    clear H12.
+    destruct (split_core comp c_accumulate c_compress c_acc_split _ _ _ _ _ _ _ _ E12)
+      as (c1 & n1 & e1 & S1 & S2 & S3).
+    rewrite S1. cbn [wc we]. destruct e1.
+    + destruct (S2 eq_refl) as (Hc & He). subst c12 e12. cbn [wc we orb].
+      split; [reflexivity|]. split; [reflexivity|]. discriminate.
+    + destruct (S3 eq_refl) as (Hn & n2 & L2 & Hn2). cbn [Nat.add] in Hn. subst n1.
+      rewrite loop_num in L2.
+      destruct (cloop fuel c1 b 0) as [[[c2 m2] e2]|] eqn:E2; [|discriminate L2].
+      injection L2 as H1 H2 H3. subst c2 n2 e2. cbn [orb].
+      split; [reflexivity|]. split; [reflexivity|]. intros He. symmetry. apply Hn2. exact He.
+  - rewrite Ee. cbn [orb]. split; [reflexivity|]. split; [reflexivity|]. discriminate.
+  - rewrite Ee. cbn [orb]. split; [reflexivity|]. split; [reflexivity|]. discriminate.
+Qed.
+
+(* ------------------------------------------------------------------ *)
+(* C12                                                                  *)
+
+Theorem reset_is_new : reset_is_new_statement.
+Proof.
+  intros sync level win4k w fail Hr. destruct (reachable_inv _ _ _ _ Hr) as (I1 & _).
+  unfold W_reset, wreset, W_new. rewrite (cpar_reset _ _ _ _ fail I1). reflexivity.
+Qed.
+
+(* ------------------------------------------------------------------ *)
+(* C14                                                                  *)
+
+Theorem fault_sticky : fault_sticky_statement.
+Proof.
+  intros fuel w ops He Hn. exists (map (fun _ => true) ops). split.
+  - unfold W_run. apply sticky_error; assumption.
+  - clear. induction ops as [|o r IH]; cbn [map]; constructor; auto.
+Qed.
+
+Theorem closed_emits_nothing : closed_emits_nothing_statement.
+Proof.
+  intros fuel w ops He Hn. exists (map closed_result ops).
+  unfold W_run. apply closed_is_absorbing; assumption.
+Qed.
+
+(* ------------------------------------------------------------------ *)
+(* healthy destination; C16                                             *)
+
+Definition whealthy (x : writer comp) : Prop := chealthy (wc comp x) /\ we comp x <> EDest.
+Definition st_of (x : writer comp) : sstate :=
+  match we comp x with ENone => SOpen | _ => SClosed end.
+
+Notation cstep := (wstep comp c_accumulate c_compress c_flush c_close (c_reset_to None)).
+Notation crun := (WriterSM.wrun comp c_accumulate c_compress c_flush c_close (c_reset_to None)).
+
+Lemma wstep_healthy : forall fuel x o x' e, whealthy x -> cstep fuel x o = Some (x', e) ->
+  whealthy x' /\ std_step (st_of x) o = (st_of x', e).
+Proof.
+  intros fuel x o x' e (Hh & Hne) H. unfold st_of. destruct o as [d| | |]; cbn [wstep] in H.
+  - unfold wwrite in H. destruct (we comp x) eqn:Ee; [| |congruence].
+    + destruct (cloop fuel (wc comp x) d 0) as [[[c m] failed]|] eqn:El; [|discriminate H].
+      injection H as H1 H2. subst x' e.
+      destruct (cloop_par _ _ _ _ _ _ _ El) as (_ & P2). destruct (P2 Hh) as (P3 & P4).
+      subst failed. unfold whealthy. cbn [wc we]. split; [split; [exact P4|discriminate]|reflexivity].
+    + injection H as H1 H2. subst x' e. rewrite Ee.
+      split; [split; [exact Hh|congruence]|reflexivity].
+  - unfold wflush in H. destruct (we comp x) eqn:Ee; [| |congruence].
+    + destruct (c_flush (wc comp x)) as [c failed] eqn:Ef. injection H as H1 H2. subst x' e.
+      destruct (c_flush_par _ _ _ Ef) as (_ & P2). destruct (P2 Hh) as (P3 & P4).
+      subst failed. unfold whealthy. cbn [wc we]. split; [split; [exact P4|discriminate]|reflexivity].
+    + injection H as H1 H2. subst x' e. rewrite Ee.
+      split; [split; [exact Hh|congruence]|reflexivity].
+  - unfold wclose in H. destruct (we comp x) eqn:Ee; [| |congruence].
+    + destruct (c_close (wc comp x)) as [c failed] eqn:Ef. injection H as H1 H2. subst x' e.
+      destruct (c_close_par _ _ _ Ef) as (_ & P2). destruct (P2 Hh) as (P3 & P4).
+      subst failed. unfold whealthy. cbn [wc we]. split; [split; [exact P4|discriminate]|reflexivity].
+    + injection H as H1 H2. subst x' e. rewrite Ee.
+      split; [split; [exact Hh|congruence]|reflexivity].
+  - injection H as H1 H2. subst x' e. unfold wreset, whealthy. cbn [wc we]. split.
+    + split; [|discriminate]. unfold chealthy. destruct (wc comp x); reflexivity.
+    + destruct (we comp x); reflexivity.
+Qed.
+
+Lemma wstep_reachable : forall sync level win4k fuel x o x' e,
+  reachable sync level win4k x -> cstep fuel x o = Some (x', e) -> reachable sync level win4k x'.
+Proof.
+  intros sync level win4k fuel x o x' e Hr H. destruct o as [d| | |]; cbn [wstep] in H.
+  - destruct (wwrite comp c_accumulate c_compress fuel x d) as [[[x1 n] e1]|] eqn:Ew; [|discriminate H].
+    injection H as H1 H2. subst x1 e1. apply (R_write sync level win4k x fuel d x' n e Hr Ew).
+  - injection H as H1. pose proof (R_flush sync level win4k x Hr) as R. unfold W_flush in R.
+    destruct (wflush comp c_flush x) as [x1 e1]. cbn [fst] in R. injection H1 as H1 H2. subst x1. exact R.
+  - injection H as H1. pose proof (R_close sync level win4k x Hr) as R. unfold W_close in R.
+    destruct (wclose comp c_close x) as [x1 e1]. cbn [fst] in R. injection H1 as H1 H2. subst x1. exact R.
+  - injection H as H1 H2. subst x'. apply (R_reset sync level win4k x None Hr).
+Qed.
+
+Lemma crun_healthy : forall ops fuel x x' flags, whealthy x -> crun fuel x ops = Some (x', flags) ->
+  whealthy x' /\ flags = std_run (st_of x) ops.
+Proof.
+  induction ops as [|o r IH]; intros fuel x x' flags Hh H.
+  - cbn [WriterSM.wrun] in H. injection H as H1 H2. subst x' flags. split; [exact Hh|reflexivity].
+  - cbn [WriterSM.wrun] in H. destruct (cstep fuel x o) as [[x1 e]|] eqn:Es; [|discriminate H].
+    destruct (crun fuel x1 r) as [[x2 es]|] eqn:Er; [|discriminate H].
+    injection H as H1 H2. subst x' flags.
+    destruct (wstep_healthy _ _ _ _ _ Hh Es) as (Hh1 & Hs).
+    destruct (IH _ _ _ _ Hh1 Er) as (Hh2 & Hf).
+    split; [exact Hh2|]. cbn [std_run]. rewrite Hs. rewrite Hf. reflexivity.
+Qed.
+
+Theorem healthy_no_error : healthy_no_error_statement.
+Proof.
+  intros sync level win4k fuel ops w flags H. unfold W_run in H.
+  assert (Hh : whealthy (W_new sync level win4k None)).
+  { unfold whealthy, W_new. cbn [wc we]. split; [apply comp_new_healthy|discriminate]. }
+  destruct (crun_healthy _ _ _ _ _ Hh H) as ((H1 & H2) & _). split; [exact H1|exact H2].
+Qed.
+
+Lemma sum_writes_cons : forall o r,
+  sum_writes (o :: r) = match o with OWrite d => (length d + sum_writes r)%nat | _ => sum_writes r end.
+Proof. intros o r. reflexivity. Qed.
+
+Lemma crun_exists : forall sync level win4k ops fuel x,
+  reachable sync level win4k x -> (sum_writes ops < fuel)%nat ->
+  exists x' flags, crun fuel x ops = Some (x', flags).
+Proof.
+  intros sync level win4k. induction ops as [|o r IH]; intros fuel x Hr Hf.
+  - exists x, []. reflexivity.
+  - rewrite sum_writes_cons in Hf.
+    assert (Hs : exists x1 e, cstep fuel x o = Some (x1, e)).
+    { destruct o as [d| | |]; cbn [wstep].
+      - pose proof (write_fuel sync level win4k x d fuel Hr ltac:(lia)) as Hw.
+        unfold W_write in Hw.
+        destruct (wwrite comp c_accumulate c_compress fuel x d) as [[[x1 n] e1]|]; [|congruence].
+        exists x1, e1. reflexivity.
+      - destruct (wflush comp c_flush x) as [x1 e1]. exists x1, e1. reflexivity.
+      - destruct (wclose comp c_close x) as [x1 e1]. exists x1, e1. reflexivity.
+      - eexists. eexists. reflexivity. }
+    destruct Hs as (x1 & e & Hs).
+    pose proof (wstep_reachable _ _ _ _ _ _ _ _ Hr Hs) as Hr1.
+    assert (Hf1 : (sum_writes r < fuel)%nat) by (destruct o; lia).
+    destruct (IH fuel x1 Hr1 Hf1) as (x2 & es & Hrun).
+    exists x2, (e :: es). cbn [WriterSM.wrun]. rewrite Hs, Hrun. reflexivity.
+Qed.
+
+Theorem call_sequences : call_sequences_statement.
+Proof.
+  intros sync level win4k ops.
+  destruct (crun_exists sync level win4k ops (S (sum_writes ops)) (W_new sync level win4k None)
+              (R_new sync level win4k None) ltac:(lia)) as (w & flags & Hrun).
+  exists w, flags. split; [exact Hrun|].
+  assert (Hh : whealthy (W_new sync level win4k None)).
+  { unfold whealthy, W_new. cbn [wc we]. split; [apply comp_new_healthy|discriminate]. }
+  destruct (crun_healthy _ _ _ _ _ Hh Hrun) as (_ & Hf). exact Hf.
+Qed.
+
+Print Assumptions write_fuel.
+Print Assumptions write_empty.
+Print Assumptions write_split.
+Print Assumptions reset_is_new.
+Print Assumptions fault_sticky.
+Print Assumptions healthy_no_error.
+Print Assumptions call_sequences.
+Print Assumptions closed_emits_nothing.
